@@ -150,6 +150,10 @@ def check(tier, seed, replay=None):
                                      (["--output-style=csv", "--select=.n =n"], '{"n": %d}\n' % n, '"n"\n%d\n' % n)):
                 tcases.append({"id": len(tcases), "argv": argv, "stdin": hexs(data.encode())})
                 texp.append(want.encode())
+            # a number that was begun and is not one (`-`, `1e`, ...), skipped under the default policy, leaves nothing behind: the integer after it is itself
+            for junk in ("-", "1e", "-e", "1e+", "- -", "[-]", '{"a": -}', "-\n1e\n-"):
+                tcases.append({"id": len(tcases), "argv": [], "stdin": hexs(("%s %d\n%s\n%d" % (junk, n, junk, n)).encode())})
+                texp.append(("%d\n%d\n" % (n, n)).encode())
         tobs = run_cases(jvh, tcases)
         base = len(recs)
         for i, c in enumerate(tcases):
